@@ -67,4 +67,22 @@ package session
 //@ func (s *Session) updateLoop()
 //@   tags C19
 //@   opt nospawn yes
+//@   requires s.Directory != nil && !s.serviceListMutex.lockw && !s.pollMutex.lockw && s.pollMutex.lockr == 0 && !s.cancelMutex.lockw
 //@   modifies everything
+//@   loop 1:
+//@     invariant s.Directory != nil && !s.serviceListMutex.lockw && !s.pollMutex.lockw && s.pollMutex.lockr == 0 && !s.cancelMutex.lockw
+
+// Refreshing the service list: the new snapshot is installed under serviceListMutex (guard
+// obligation), no lock is held while the directory is asked, nothing is held at return.
+// Assumed: the remote listing call does not touch the session's locks.
+// the directory proxy of a session is set once, in NewAuthSession, before the update loop starts
+//@ immutable Session.Directory
+//@ interface (d services.ServiceDirectoryProxy) Services() (result []services.ServiceInfo, err error)
+//@   trusted
+//@   pure
+//@ func (s *Session) updateServiceList()
+//@   tags C19
+//@   requires s.Directory != nil && !s.serviceListMutex.lockw && !s.pollMutex.lockw && s.pollMutex.lockr == 0 && !s.cancelMutex.lockw
+//@   modifies everything
+//@   ensures[C19] !s.serviceListMutex.lockw && !s.pollMutex.lockw && s.pollMutex.lockr == 0 && !s.cancelMutex.lockw
+//@   call Services#1: assert[C19] !s.serviceListMutex.lockw && !s.pollMutex.lockw && s.pollMutex.lockr == 0
